@@ -26,6 +26,11 @@ func NewLocation(f *fs.File, i bytes.Index) Location {
 	}
 }
 
+// File returns the file the location points into.
+func (l Location) File() *fs.File {
+	return l.file
+}
+
 func (l Location) Quote() string {
 	return l.quote
 }
